@@ -154,6 +154,32 @@ def run_case(case):
                          min(k * 4 // max(n, 1), 3)])
         if out.fails:
             break
+    # ---- `trash-empty -v` writing to a pipe whose reader has gone away (| head -1): the output
+    # error may surface at any flush; killed at every position as well
+    if not out.fails and case["cmd"] in ("empty", "empty_days") and case.get("pipe", True):
+        buf = [48, 120, 300][len(es) % 3]
+        for k in range(1, n + 2):
+            sandbox.build_world(spec)
+            r = runner.run(spec, script, ["-v"] + args, stdin=stdin, env=env, closed_stdout=True,
+                           plan={"crash_at": k, "stdout_buffer": buf})
+            after = sandbox.snapshot()
+            what = "%s -v with a closed stdout pipe (buffer %d), killed before op %d (exit %d)" % (
+                script, buf, k, r.code)
+            t = dict(tags, kill="epipe")
+            for e in es:
+                if e["payload"] in after and e["info"] not in after:
+                    out.fail("payload_without_info", "%s: %s remains but %s is gone" % (
+                        what, e["payload"], e["info"]), **t)
+            runner.run(spec, script, args, stdin=stdin, env=env)
+            rec = sandbox.snapshot()
+            if trash_view(rec) != trash_view(final):
+                d = sorted(set(trash_view(rec)) ^ set(trash_view(final)))
+                out.fail("rerun_incomplete", "%s: re-running the command does not reach the "
+                         "fault-free final state; differing: %s" % (what, d[:4]), **t)
+            out.classes.append("epipe:exit%d" % r.code)
+            out.keys.append([case["cmd"], kinds, "epipe", buf, min(k * 4 // max(n, 1), 3)])
+            if out.fails or r.code != 137:
+                break     # (the command ended by itself before reaching operation k)
     out.sample = {"cmd": [script] + args, "entries": [[e["kind"], e["orig"]] for e in es],
                   "mutating_ops": n, "ops": [[t[2], t[3][0] if t[3] else None] for t in muts][:30]}
     return out
